@@ -7,13 +7,22 @@
   exactly-once, per-producer order, no invention, no refusal below capacity).
   Theorems (all indices and masks): an element offset never exceeds half the mask, so it stays inside the chunk and never
   hits the link slot; the link slot is the chunk's last slot; the free-space computation is exact; the buffer capacity
-  rule. PARTIAL: the refinement "Impl.Mpsc behaves as a bounded FIFO for every operation sequence" and the concurrent
-  exactly-once invariant are checked by the oracles above on every run, not mechanised.
+  rule; an element offset is the position modulo the chunk size.
+  All interleavings (Conc.MpscConc: unboundedly many producers, the single consumer, any number of growth steps; steps limit /
+  reserve / publish / rzStart / rzBody / rzJump / cTake / cJump): what the consumer has taken is exactly the sequence of
+  the elements of positions 0 .. C-1 — each once, in reservation order, hence in every producer's own order; the queue
+  never holds more than its maximum; two reserved, unconsumed positions of the same chunk never share a cell and neither
+  shares the cell of the chunk's JUMP marker — nothing is overwritten, nothing is lost while the buffer grows by linking a
+  larger chunk.
+  PARTIAL: the position-level model is tied to mpsc.go by the skeletons, the index lemmas and CONC-mpsc, not by a refinement
+  proof; index wrap-around at 2^64 is not modelled (positions are naturals); the sequential refinement of Impl.Mpsc is
+  checked by the UNIT-mpsc oracle on every run.
 -/
 import OtterVerif.Impl.Mpsc
 import OtterVerif.Conc.MpscSkeleton
 import OtterVerif.Conc.DrainSkeleton
 import OtterVerif.Gen.Skeleton
+import OtterVerif.Conc.MpscConc
 
 namespace OtterVerif.Props.C16
 open OtterVerif
@@ -62,6 +71,55 @@ theorem c16_full_iff (maxCap pIndex cIndex : BitVec 64) (h1 : cIndex.toNat ≤ p
   · intro h
     apply BitVec.eq_of_toNat_eq
     rw [this]; simp; omega
+
+/-- an element offset is the position (index / 2) modulo the chunk size, for every chunk size 2^k -/
+theorem c16_offset_is_position_mod (index : BitVec 64) (k : Nat) (hk : k < 62) :
+    (Gen.MpscIdx.modifiedCalcElementOffset index (BitVec.ofNat 64 (2 * (2 ^ k - 1)))).toNat = (index.toNat / 2) % 2 ^ k := by
+  unfold Gen.MpscIdx.modifiedCalcElementOffset
+  rw [BitVec.toNat_ushiftRight, BitVec.toNat_and, BitVec.toNat_ofNat]
+  have hlt : 2 * (2 ^ k - 1) < 2 ^ 64 := by
+    have : 2 ^ k ≤ 2 ^ 61 := Nat.pow_le_pow_right (by omega) (by omega)
+    omega
+  rw [Nat.mod_eq_of_lt hlt, Nat.shiftRight_and_distrib]
+  have h1 : (2 * (2 ^ k - 1)) >>> 1 = 2 ^ k - 1 := by
+    rw [Nat.shiftRight_eq_div_pow]; omega
+  rw [h1, Nat.and_two_pow_sub_one_eq_mod, Nat.shiftRight_eq_div_pow]
+
+/-! ### All interleavings (Conc.MpscConc) -/
+
+/-- every accepted event is handed to the consumer exactly once, in the order of the positions (and therefore in the order
+    in which each producer submitted its own events): the consumed sequence is the elements of positions 0 .. C-1 -/
+theorem c16_conc_exactly_once_in_order (g : Conc.MpscConc.Geo) {s : Conc.MpscConc.St} (h : Conc.MpscConc.Reach g s) :
+    s.delivered = (List.range s.C).map s.val ∧ s.C ≤ s.P :=
+  ⟨(Conc.MpscConc.reach_inv g h).o8, (Conc.MpscConc.reach_inv g h).o1⟩
+
+/-- the buffer never holds more than its maximum number of events -/
+theorem c16_conc_bounded (g : Conc.MpscConc.Geo) {s : Conc.MpscConc.St} (h : Conc.MpscConc.Reach g s) : s.P - s.C ≤ g.M := by
+  have hb := Conc.MpscConc.reach_bound g h
+  have hi := Conc.MpscConc.reach_inv g h
+  have := hi.o2
+  have := hb.1
+  omega
+
+/-- nothing is overwritten: two reserved, unconsumed positions of the same chunk use different cells … -/
+theorem c16_conc_cells_distinct (g : Conc.MpscConc.Geo) {s : Conc.MpscConc.St} (h : Conc.MpscConc.Reach g s) (p q : Nat)
+    (hp : s.C ≤ p) (hpq : p < q) (hq : q < s.P) (hb : s.bufOf p = s.bufOf q) :
+    p % g.size (s.bufOf p) ≠ q % g.size (s.bufOf p) :=
+  Conc.MpscConc.cells_distinct g h p q hp hpq hq hb
+
+/-- … and none of them uses the cell of the JUMP marker that links the chunk to the next, larger one -/
+theorem c16_conc_jump_cell_free (g : Conc.MpscConc.Geo) {s : Conc.MpscConc.St} (h : Conc.MpscConc.Reach g s) (p : Nat)
+    (hp : s.C ≤ p) (hpP : p < s.P) (hlast : s.bufOf p + 1 < s.nb) :
+    p % g.size (s.bufOf p) ≠ s.first (s.bufOf p + 1) % g.size (s.bufOf p) :=
+  Conc.MpscConc.jump_cell_free g h p hp hpP hlast
+
+/-- an offer is refused only when the buffer holds its maximum: the refusal test `M ≤ pIndex - cIndex` can be true only when
+    exactly M events are in the buffer (a stale, i.e. smaller, cIndex makes the producer refuse only if the buffer was full
+    when it was read: the same statement for the state at that moment) -/
+theorem c16_conc_refusal_means_full (g : Conc.MpscConc.Geo) {s : Conc.MpscConc.St} (h : Conc.MpscConc.Reach g s)
+    (hfull : g.M ≤ s.P - s.C) : s.P - s.C = g.M := by
+  have := c16_conc_bounded g h
+  omega
 
 theorem skeleton_MPSC_TryPush : Gen.Skeleton.MPSC_TryPush = Conc.MpscSkeleton.MPSC_TryPush := by decide
 
